@@ -22,6 +22,24 @@ enum St {
     Clear(usize),
     AddColumn(usize, &'static str),
     DropColumn(usize, &'static str),
+    /// CHANGE COLUMN old new INT (rename)
+    ChangeColumn(usize, &'static str, &'static str),
+    /// MODIFY COLUMN c BIGINT (type only)
+    ModifyColumn(usize, &'static str),
+}
+
+/// an index name as the catalog records it: unquoted names are upper-cased by the lexer,
+/// delimited names are kept as written
+fn written(sql_name: &str) -> String {
+    if let Some(inner) = sql_name.strip_prefix('"') {
+        inner.trim_end_matches('"').to_string()
+    } else {
+        sql_name.to_uppercase()
+    }
+}
+
+fn hexname(sql_name: &str) -> String {
+    sx::hex_str(&written(sql_name))
 }
 
 /// spellings: (as written in SQL, normalised name, INSERT/DELETE/ALTER parse with this spelling)
@@ -38,6 +56,8 @@ impl St {
             St::Clear(s) => format!("DELETE FROM {}", SPELL[*s].0),
             St::AddColumn(s, c) => format!("ALTER TABLE {} ADD COLUMN {} INT", SPELL[*s].0, c),
             St::DropColumn(s, c) => format!("ALTER TABLE {} DROP COLUMN {}", SPELL[*s].0, c),
+            St::ChangeColumn(s, o, n) => format!("ALTER TABLE {} CHANGE COLUMN {} {} INT", SPELL[*s].0, o, n),
+            St::ModifyColumn(s, c) => format!("ALTER TABLE {} MODIFY COLUMN {} BIGINT", SPELL[*s].0, c),
         }
     }
     fn model(&self) -> String {
@@ -45,12 +65,14 @@ impl St {
         match self {
             St::CreateTable(s, cols) => format!("(ct {} ({}))", SPELL[*s].1, up(cols)),
             St::DropTable(s) => format!("(dt {})", SPELL[*s].1),
-            St::CreateIndex(i, s, cols) => format!("(ci {} {} ({}))", i.to_uppercase(), SPELL[*s].1, up(cols)),
-            St::DropIndex(i) => format!("(di {})", i.to_uppercase()),
+            St::CreateIndex(i, s, cols) => format!("(ci {} {} ({}))", hexname(i), SPELL[*s].1, up(cols)),
+            St::DropIndex(i) => format!("(di {})", hexname(i)),
             St::Insert(s, vals) => format!("(ins {} ({}))", SPELL[*s].1, vals.iter().map(|v| format!("I{}", v)).collect::<Vec<_>>().join(" ")),
             St::Clear(s) => format!("(clr {})", SPELL[*s].1),
             St::AddColumn(s, c) => format!("(ac {} {})", SPELL[*s].1, c.to_uppercase()),
             St::DropColumn(s, c) => format!("(dc {} {})", SPELL[*s].1, c.to_uppercase()),
+            St::ChangeColumn(s, o, n) => format!("(cc {} {} {})", SPELL[*s].1, o.to_uppercase(), n.to_uppercase()),
+            St::ModifyColumn(s, c) => format!("(mc {} {})", SPELL[*s].1, c.to_uppercase()),
         }
     }
     fn kind(&self) -> &'static str {
@@ -63,11 +85,13 @@ impl St {
             St::Clear(_) => "delete_all",
             St::AddColumn(..) => "add_column",
             St::DropColumn(..) => "drop_column",
+            St::ChangeColumn(..) => "change_column",
+            St::ModifyColumn(..) => "modify_column",
         }
     }
     fn table(&self) -> Option<&'static str> {
         match self {
-            St::CreateTable(s, _) | St::DropTable(s) | St::CreateIndex(_, s, _) | St::Insert(s, _) | St::Clear(s) | St::AddColumn(s, _) | St::DropColumn(s, _) => Some(SPELL[*s].1),
+            St::CreateTable(s, _) | St::DropTable(s) | St::CreateIndex(_, s, _) | St::Insert(s, _) | St::Clear(s) | St::AddColumn(s, _) | St::DropColumn(s, _) | St::ChangeColumn(s, _, _) | St::ModifyColumn(s, _) => Some(SPELL[*s].1),
             St::DropIndex(_) => None,
         }
     }
@@ -77,7 +101,10 @@ impl St {
 struct Regs {
     catalog: BTreeMap<String, Vec<String>>,
     stored: BTreeMap<String, (Vec<String>, Vec<String>)>,
-    reg: BTreeMap<String, (String, Vec<String>)>,
+    /// storage registry: key (normalised name) -> (name as written, table, columns)
+    reg: BTreeMap<String, (String, String, Vec<String>)>,
+    /// catalog index list: name as written -> [(table, columns)]
+    creg: BTreeMap<String, Vec<(String, Vec<String>)>>,
 }
 
 fn observe(db: &Db) -> Regs {
@@ -92,8 +119,14 @@ fn observe(db: &Db) -> Regs {
     }
     for i in db.db.list_indexes() {
         if let Some(m) = db.db.get_index(&i) {
-            r.reg.insert(i.to_uppercase(), (m.table_name.clone(), m.columns.iter().map(|c| c.column_name.clone()).collect()));
+            r.reg.insert(i.clone(), (m.index_name.clone(), m.table_name.clone(), m.columns.iter().map(|c| c.column_name.clone()).collect()));
         }
+    }
+    for ci in db.db.catalog.list_all_indexes() {
+        r.creg.entry(ci.name.clone()).or_default().push((ci.table_name.clone(), ci.columns.iter().map(|c| c.column_name.clone()).collect()));
+    }
+    for v in r.creg.values_mut() {
+        v.sort();
     }
     r
 }
@@ -128,7 +161,16 @@ fn parse_model(reply: &str) -> Option<Vec<(String, Regs)>> {
                 "reg" => {
                     for e in &pl[1..] {
                         let e = e.as_list()?;
-                        r.reg.insert(e[0].as_atom()?.to_string(), (e[1].as_atom()?.to_string(), names(&e[2])));
+                        r.creg.entry(sx::unhex_str(e[0].as_atom()?)?).or_default().push((e[1].as_atom()?.to_string(), names(&e[2])));
+                    }
+                    for v in r.creg.values_mut() {
+                        v.sort();
+                    }
+                }
+                "sreg" => {
+                    for e in &pl[1..] {
+                        let e = e.as_list()?;
+                        r.reg.insert(sx::unhex_str(e[0].as_atom()?)?, (sx::unhex_str(e[1].as_atom()?)?, e[2].as_atom()?.to_string(), names(&e[3])));
                     }
                 }
                 _ => {}
@@ -201,22 +243,122 @@ fn run_case(stmts: &[St], model: &mut model::Model, rep: &mut Report, label: &st
             stop = true;
         }
         // (O2) no index names a missing table
-        for (i, (t, _)) in &after.reg {
+        for (i, (_, t, _)) in &after.reg {
             if !after.catalog.contains_key(t) {
                 fail(rep, "an index names a table that does not exist", format!("index {} on {}", i, t), "", &altered);
                 stop = true;
             }
         }
+        // (O8) catalog index list = storage registry (names as written; exactly and ignoring case)
+        {
+            let cat: BTreeSet<(String, String)> = after.creg.iter().flat_map(|(n, v)| v.iter().map(move |(t, _)| (n.clone(), t.clone()))).collect();
+            let sto: BTreeSet<(String, String)> = after.reg.values().map(|(n, t, _)| (n.clone(), t.clone())).collect();
+            if cat != sto {
+                let ci = |x: &BTreeSet<(String, String)>| -> BTreeSet<(String, String)> { x.iter().map(|(n, t)| (n.to_uppercase(), t.to_uppercase())).collect() };
+                let how = if ci(&cat) == ci(&sto) { "equal ignoring case, different exactly" } else { "different even ignoring case" };
+                fail(rep, "catalog index list and storage index registry differ", format!("{}: catalog {:?} storage {:?}", how, cat, sto), "", &altered);
+                stop = true;
+            }
+            // every index column (catalog and storage) exists in its table
+            for (n, v) in &after.creg {
+                for (t, cols) in v {
+                    if let Some(tc) = after.catalog.get(t) {
+                        if let Some(c) = cols.iter().find(|c| !tc.contains(c)) {
+                            fail(rep, "a catalog index names a column its table does not have", format!("index {} on {} column {} (table columns {:?})", n, t, c, tc), "", &altered);
+                            stop = true;
+                        }
+                    }
+                }
+            }
+            for (k2, (n, t, cols)) in &after.reg {
+                if let Some(tc) = after.catalog.get(t) {
+                    if let Some(c) = cols.iter().find(|c| !tc.contains(c)) {
+                        fail(rep, "a storage index names a column its table does not have", format!("index {} ({}) on {} column {} (table columns {:?})", k2, n, t, c, tc), "", &altered);
+                        stop = true;
+                    }
+                }
+            }
+        }
+        // (O9) index contents = rebuild of the scan; (O10) name reuse and DROP INDEX on clones
+        if !stop {
+            for (key, (n, t, cols)) in &after.reg {
+                let Some(table) = db.db.get_table(t) else { continue };
+                let pos: Vec<Option<usize>> = cols.iter().map(|c| table.schema.get_column_index(c)).collect();
+                if pos.iter().any(|p| p.is_none()) {
+                    continue;
+                }
+                let mut want: BTreeMap<String, Vec<usize>> = BTreeMap::new();
+                for (p, r) in table.scan().iter().enumerate() {
+                    let k3: Vec<String> = pos.iter().map(|c| canon::val(&r.values[c.unwrap()])).collect();
+                    want.entry(k3.join(" ")).or_default().push(p);
+                }
+                let got: Option<BTreeMap<String, Vec<usize>>> = match db.db.get_index_data(key) {
+                    Some(vibesql_storage::database::IndexData::InMemory { data }) => Some(
+                        data.iter()
+                            .map(|(k3, ps)| {
+                                let mut ps = ps.clone();
+                                ps.sort();
+                                (k3.iter().map(canon::val).collect::<Vec<_>>().join(" "), ps)
+                            })
+                            .collect(),
+                    ),
+                    _ => None,
+                };
+                if got.as_ref() != Some(&want) {
+                    fail(rep, "index contents differ from a rebuild of the table", format!("index {} ({}) on {}: got {:?} want {:?}", key, n, t, got, want), "", &altered);
+                    stop = true;
+                }
+            }
+            let quote = |n: &str| format!("\"{}\"", n);
+            let listed: BTreeSet<String> = after.creg.keys().cloned().chain(after.reg.values().map(|(n, _, _)| n.clone())).collect();
+            for n in &listed {
+                // DROP INDEX of a listed name succeeds and removes it from both lists
+                let mut probe = Db::from(db.db.clone());
+                probe.keep_log = false;
+                let o = probe.exec(&format!("DROP INDEX {}", quote(n)));
+                let gone = observe(&probe);
+                if !o.is_ok() || gone.creg.contains_key(n) || gone.reg.values().any(|(w, _, _)| w == n) {
+                    fail(rep, "DROP INDEX of a listed index does not remove it", format!("DROP INDEX {} => {} ; catalog {:?} storage {:?}", quote(n), o.brief(), gone.creg.keys().collect::<Vec<_>>(), gone.reg), "", &altered);
+                    stop = true;
+                }
+                // CREATE INDEX of an existing name fails
+                if let Some(t) = after.catalog.keys().find(|t| !t.chars().any(|c| c.is_lowercase())) {
+                    let col = after.catalog[t].first().cloned().unwrap_or_default();
+                    let mut probe = Db::from(db.db.clone());
+                    probe.keep_log = false;
+                    let o = probe.exec(&format!("CREATE INDEX {} ON {} ({})", quote(n), t, col));
+                    if o.is_ok() {
+                        fail(rep, "CREATE INDEX of an existing index name succeeds", format!("CREATE INDEX {} ON {} ({})", quote(n), t, col), "", &altered);
+                        stop = true;
+                    }
+                }
+            }
+            // a name that is in neither list can be created (name reuse after DROP / ALTER)
+            if let (Some(t), St::DropIndex(i) | St::CreateIndex(i, _, _)) = (after.catalog.keys().find(|t| !t.chars().any(|c| c.is_lowercase())), st) {
+                let n = written(i);
+                let taken = after.reg.contains_key(&n.to_uppercase());
+                if !listed.contains(&n) && !taken {
+                    let col = after.catalog[t].first().cloned().unwrap_or_default();
+                    let mut probe = Db::from(db.db.clone());
+                    probe.keep_log = false;
+                    let o = probe.exec(&format!("CREATE INDEX {} ON {} ({})", quote(&n), t, col));
+                    if !o.is_ok() {
+                        fail(rep, "an index name that is not listed anywhere cannot be created", format!("CREATE INDEX {} ON {} ({}) => {}", quote(&n), t, col, o.brief()), "", &altered);
+                        stop = true;
+                    }
+                }
+            }
+        }
         // (O4) DROP TABLE leaves nothing; re-created table is empty and index-free
         if out.is_ok() {
             if let St::DropTable(_) = st {
-                if after.stored.contains_key(tname) || after.reg.values().any(|(t, _)| t == tname) {
+                if after.stored.contains_key(tname) || after.reg.values().any(|(_, t, _)| t == tname) {
                     fail(rep, "DROP TABLE left storage or indexes behind", format!("{:?}", after), "", &altered);
                     stop = true;
                 }
             }
             if let St::CreateTable(..) = st {
-                let fresh = after.stored.get(tname).map(|(_, rows)| rows.is_empty()).unwrap_or(false) && !after.reg.values().any(|(t, _)| t == tname);
+                let fresh = after.stored.get(tname).map(|(_, rows)| rows.is_empty()).unwrap_or(false) && !after.reg.values().any(|(_, t, _)| t == tname);
                 if !fresh {
                     fail(rep, "a newly created table is not empty and index-free", format!("{:?}", after), "", &altered);
                     stop = true;
@@ -327,7 +469,7 @@ fn run_case(stmts: &[St], model: &mut model::Model, rep: &mut Report, label: &st
 fn gen(r: &mut Rng) -> Vec<St> {
     let n = r.range(6, 22);
     let mut v = vec![];
-    let mut idx = 0;
+    let mut idx: i64 = 0;
     let mut idx_names: Vec<String> = vec![];
     let cols_pool: [&'static str; 4] = ["a", "b", "c", "d"];
     // model of declared widths to make most inserts fit
@@ -344,7 +486,14 @@ fn gen(r: &mut Rng) -> Vec<St> {
             St::DropTable(s)
         } else if w < 42 {
             idx += 1;
-            let name = format!("ix{}", idx);
+            // spellings: unquoted (upper-cased), delimited lower case, delimited mixed case with a
+            // blank, and a delimited lower-case twin of an unquoted name (differs only in case)
+            let name = match r.below(6) {
+                0 | 1 => format!("ix{}", idx),
+                2 | 3 => format!("\"idx_{}\"", idx),
+                4 => format!("\"Idx {}\"", idx),
+                _ => format!("\"ix{}\"", r.range(1, idx.max(1))),
+            };
             idx_names.push(name.clone());
             let mut cols = vec![*r.pick(&cols_pool[..3])];
             if r.chance(1, 4) {
@@ -368,12 +517,19 @@ fn gen(r: &mut Rng) -> Vec<St> {
         } else if w < 84 {
             let s = if SPELL[s].2 { s } else { 0 };
             St::Clear(s)
-        } else if w < 93 {
+        } else if w < 90 {
             let s = if SPELL[s].2 { s } else { 1 };
             St::AddColumn(s, *r.pick(&["d", "c", "e"]))
+        } else if w < 94 {
+            let s = if SPELL[s].2 { s } else { 1 };
+            St::DropColumn(s, *r.pick(&["b", "c", "d", "b2"]))
+        } else if w < 98 {
+            let s = if SPELL[s].2 { s } else { 1 };
+            let (o, n) = *r.pick(&[("b", "b2"), ("c", "c2"), ("b2", "b"), ("a", "a2")]);
+            St::ChangeColumn(s, o, n)
         } else {
             let s = if SPELL[s].2 { s } else { 1 };
-            St::DropColumn(s, *r.pick(&["b", "c", "d"]))
+            St::ModifyColumn(s, *r.pick(&["b", "c"]))
         };
         v.push(st);
     }
@@ -387,6 +543,8 @@ fn probes() -> Vec<(&'static str, Vec<St>)> {
         ("drop-recreate", vec![St::CreateTable(0, ab.clone()), St::CreateIndex("qi".into(), 0, vec!["b"]), St::Insert(0, vec![1, 1]), St::DropTable(1), St::CreateTable(1, abc.clone()), St::Insert(0, vec![1, 2, 3]), St::CreateIndex("qi".into(), 0, vec!["c"]), St::DropIndex("qi".into()), St::DropIndex("qi".into())]),
         ("case-variants", vec![St::CreateTable(2, ab.clone()), St::CreateTable(1, ab.clone()), St::CreateTable(0, ab.clone()), St::Insert(0, vec![2, 2]), St::CreateIndex("i1".into(), 2, vec!["b"]), St::CreateIndex("i2".into(), 0, vec!["b"]), St::DropTable(2), St::Insert(1, vec![3, 2]), St::DropTable(0), St::CreateTable(2, abc.clone())]),
         ("index-on-missing", vec![St::CreateIndex("i1".into(), 3, vec!["a"]), St::CreateTable(3, ab.clone()), St::CreateIndex("i1".into(), 3, vec!["z"]), St::CreateIndex("i1".into(), 3, vec!["a"]), St::CreateIndex("i1".into(), 3, vec!["b"]), St::Insert(3, vec![1]), St::Insert(3, vec![1, 2]), St::Clear(3)]),
+        ("delimited-index-names", vec![St::CreateTable(0, abc.clone()), St::Insert(0, vec![1, 2, 3]), St::CreateIndex("\"idx_a\"".into(), 0, vec!["b"]), St::CreateIndex("\"Idx B\"".into(), 0, vec!["b", "c"]), St::CreateIndex("ix1".into(), 0, vec!["c"]), St::CreateIndex("\"ix1\"".into(), 0, vec!["a"]), St::DropColumn(0, "b"), St::CreateIndex("\"idx_a\"".into(), 0, vec!["c"]), St::DropIndex("\"ix1\"".into()), St::DropIndex("ix1".into())]),
+        ("change-column-with-delimited-index", vec![St::CreateTable(0, abc.clone()), St::Insert(0, vec![1, 2, 3]), St::CreateIndex("\"idx_b\"".into(), 0, vec!["b"]), St::CreateIndex("ixc".into(), 0, vec!["c", "b"]), St::ChangeColumn(0, "b", "b2"), St::Insert(0, vec![4, 5, 6]), St::ModifyColumn(0, "c"), St::DropColumn(0, "b2"), St::CreateIndex("\"idx_b\"".into(), 0, vec!["a"])]),
         // repaired defect ecda3d9a, kept as regression probes
         ("add-column (regression: ecda3d9a)", vec![St::CreateTable(0, ab.clone()), St::Insert(0, vec![1, 1]), St::AddColumn(0, "c")]),
         ("drop-column (regression: ecda3d9a)", vec![St::CreateTable(0, abc.clone()), St::CreateIndex("qc".into(), 0, vec!["c"]), St::Insert(0, vec![1, 2, 3]), St::DropColumn(0, "b")]),
